@@ -378,6 +378,9 @@ class DescriptorTransaction(_TransactionBase):
                 if tr_item.new is None:
                     msg = f'State deleted? That should not be possible! handle = {descriptor_container.Handle}'
                     raise ValueError(msg)
+                # the state must refer to the descriptor object of the mdib (states written via entity interface
+                # refer to a private copy of the descriptor, whose version is not incremented any more)
+                tr_item.new.descriptor_container = descriptor_container
                 tr_item.new.update_descriptor_version()
             else:
                 old_state = self._mdib.states.descriptor_handle.get_one(
